@@ -293,6 +293,16 @@ def run_engine_correspondence(ctx, hostile):
     fmt_ops, parse_ops = gen_engine_ops(ctx, ctx.scale(900 if hostile else 1500, 40_000), cnames, hostile)
     ctx.correspond("text.pat.fmt", fmt_ops, impl, oracle=oracle, driver="drv_text")
     ctx.correspond("text.pat.parse", parse_ops, impl, oracle=oracle, driver="drv_text")
+    # how many of the generated patterns does the round-trip theorem's decidable criterion cover? (information only)
+    seen, dl = set(), []
+    for op in fmt_ops:
+        t = op.split(" ")
+        key = " ".join(t[1:4])
+        if key not in seen:
+            seen.add(key)
+            dl.append("pat.delim " + key)
+    rep = c07.model_eval(dl, "drv_text")
+    ctx.note("stepped_roundtrip:Delimited-holds", {"patterns": len(rep), "delimited": rep.count("1"), "not": rep.count("0"), "not-stepped": rep.count("-")})
     for k in ("text.pat.fmt", "text.pat.parse"):
         st = ctx.suites.get(k)
         if st:
